@@ -10,7 +10,7 @@ import time
 
 from .facts import Program
 
-VERIF = os.path.dirname(os.path.dirname(os.path.dirname(os.path.abspath(__file__))))
+VERIF = os.environ.get("VERIF_HOME") or os.path.dirname(os.path.dirname(os.path.dirname(os.path.abspath(__file__))))
 REPO = os.environ.get("VERIF_REPO", "/repo")
 CACHE = os.path.join(VERIF, ".cache")
 
